@@ -604,11 +604,13 @@ impl CodegenContext {
                                 .allowed("fill")
                                 .allowed("filename")
                                 .extract(id.span, &kvps)?;
-                            let name = Identifier::new(extractor.get_string(self, "name")?);
+                            let name = extractor.get_identifier(self, "name")?;
 
                             let opts = BankOptions {
                                 name: name.clone(),
-                                size: extractor.try_get_i64(self, "size")?.map(|s| s as usize),
+                                size: extractor
+                                    .try_get_i64_in_range(self, "size", 0..=0x10000)?
+                                    .map(|s| s as usize),
                                 fill: extractor.try_get_i64(self, "fill")?.map(|s| s as u8),
                                 create_segment: extractor
                                     .try_get_i64(self, "create-segment")?
@@ -640,9 +642,10 @@ impl CodegenContext {
                                 .extract(id.span, &kvps)?;
 
                             let mut opts = SegmentOptions::default();
-                            let name = Identifier::new(extractor.get_string(self, "name")?);
+                            let name = extractor.get_identifier(self, "name")?;
                             match extractor.try_get_i64(self, "start") {
                                 Ok(Some(val)) => {
+                                    extractor.check_range("start", val, 0..=0xffff)?;
                                     log::trace!(
                                         "Segment '{}' was able to evaluate the 'start' to: {}",
                                         name,
@@ -669,9 +672,8 @@ impl CodegenContext {
                             if let Some(write) = extractor.try_get_i64(self, "write")? {
                                 opts.write = write != 0;
                             }
-                            opts.bank =
-                                extractor.try_get_string(self, "bank")?.map(Identifier::new);
-                            match extractor.try_get_i64(self, "pc")? {
+                            opts.bank = extractor.try_get_identifier(self, "bank")?;
+                            match extractor.try_get_i64_in_range(self, "pc", 0..=0xffff)? {
                                 Some(target) => opts.target_address = target.into(),
                                 None => opts.target_address = opts.initial_pc,
                             }
@@ -1048,10 +1050,9 @@ impl CodegenContext {
                 }
             }
             Token::Segment { id, block, .. } => {
-                if let Some(segment_id) = self
-                    .evaluate_expression_as_string(id, true)?
-                    .map(Identifier::new)
-                {
+                if let Some(segment_name) = self.evaluate_expression_as_string(id, true)? {
+                    // A name with a period can never be the name of a segment (and is not a valid identifier)
+                    let segment_id = Identifier::new(segment_name.replace('.', "?"));
                     if !self.segments.contains_key(&segment_id) {
                         return Err(Diagnostic::error()
                             .with_message(format!("unknown identifier: {}", id.data))
